@@ -92,10 +92,12 @@ type verifC19Tx struct {
 	badMeta  bool // the meta parser fails
 
 	// content (may be symbolic)
-	key1, key2 byte // last byte of the two variable static account keys
-	loaded     byte // lookup only: last byte of the address loaded through the table (recorded in the protobuf meta)
-	prog       byte // last byte of the program id of the last instruction (0 = the Vote program)
-	failed     bool // the archived status is an error
+	key1, key2 byte   // last byte of the two variable static account keys
+	loaded     byte   // lookup only: last byte of the address loaded through the table (recorded in the protobuf meta as writable)
+	loadedW    []byte // lookup only: further writable addresses loaded through the table (last bytes), after `loaded`
+	loadedRO   []byte // lookup only: readonly addresses loaded through the table (last bytes)
+	prog       byte   // last byte of the program id of the last instruction (0 = the Vote program)
+	failed     bool   // the archived status is an error
 
 	wire *old_faithful_grpc.Transaction
 }
@@ -221,9 +223,15 @@ func (t *verifC19Tx) meta() any {
 		if t.failed {
 			m.Err = &confirmed_block.TransactionError{Err: []byte{8, 0, 0, 0, 0, 0, 0, 0, 0}}
 		}
-		if t.lookup && t.loaded != 0 {
-			k := verifC19Key(t.loaded)
-			m.LoadedWritableAddresses = [][]byte{k[:]}
+		if t.lookup {
+			for _, l := range t.loadedWritable() {
+				k := verifC19Key(l)
+				m.LoadedWritableAddresses = append(m.LoadedWritableAddresses, k[:])
+			}
+			for _, l := range t.loadedRO {
+				k := verifC19Key(l)
+				m.LoadedReadonlyAddresses = append(m.LoadedReadonlyAddresses, k[:])
+			}
 		}
 		return m
 	case verifC19MetaSerdeOldest:
@@ -239,6 +247,22 @@ func (t *verifC19Tx) meta() any {
 		}
 		return m
 	}
+}
+
+// loadedWritable / loadedAll: last bytes of the addresses the transaction loads through its address table.
+func (t *verifC19Tx) loadedWritable() []byte {
+	var out []byte
+	if t.loaded != 0 {
+		out = append(out, t.loaded)
+	}
+	return append(out, t.loadedW...)
+}
+
+func (t *verifC19Tx) loadedAll() []byte {
+	if !t.lookup {
+		return nil
+	}
+	return append(t.loadedWritable(), t.loadedRO...)
 }
 
 func verifC19ParseAnyMeta(buf []byte) (any, error) {
